@@ -1014,13 +1014,17 @@ func qndleqCase(t *rapid.T) {
 	nalt := rapid.IntRange(3, 5).Draw(t, "nalt")
 	for a := 0; a < nalt; a++ {
 		lbl := fmt.Sprintf("a%d", a)
-		kind := rapid.SampledFrom([]string{"Z", "Z", "C", "C", "SecParam", "g", "gx", "h", "hx", "swap-gh", "N"}).Draw(t, lbl+".kind")
+		kind := rapid.SampledFrom([]string{"Z", "Z", "C", "C", "SecParam", "g", "gx", "h", "hx", "swap-gh", "N", "other-representative"}).Draw(t, lbl+".kind")
 		p2 := cpy(proof)
 		g2, gx2, h2, hx2, N2 := g, gx, h, hx, N
 		what := kind
 		ident := false
 		otherVal := func(v *big.Int) *big.Int {
-			switch rapid.SampledFrom([]string{"times-square", "plus1", "inverse", "square", "one"}).Draw(t, lbl+".how") {
+			switch rapid.SampledFrom([]string{"times-square", "plus1", "inverse", "square", "one", "negated-integer"}).Draw(t, lbl+".how") {
+			case "negated-integer":
+				// the integer -v: as a residue it is N-v, a different element (and -1 is not a square
+				// modulo a product of two safe primes, so the altered statement is false)
+				return new(big.Int).Neg(v)
 			case "times-square":
 				r := new(big.Int).Mul(v, drawSquare(t, N, lbl+".sq"))
 				return r.Mod(r, N)
@@ -1106,6 +1110,33 @@ func qndleqCase(t *rapid.T) {
 		case "hx":
 			hx2 = otherVal(hx)
 			ident = hx2.Cmp(hx) == 0
+		case "other-representative":
+			// another integer of the same residue class (v+N, v-N, v+N·2^k, wider than the modulus or not):
+			// the statement is the same, so either verdict is fine — the call must return
+			vals := []*big.Int{g, gx, h, hx}
+			wi := rapid.IntRange(0, 3).Draw(t, lbl+".which")
+			how := rapid.SampledFrom([]string{"plus-N", "minus-N", "plus-N-shifted", "plus-2N"}).Draw(t, lbl+".how")
+			v := new(big.Int).Set(vals[wi])
+			switch how {
+			case "plus-N":
+				v.Add(v, N)
+			case "minus-N":
+				v.Sub(v, N)
+			case "plus-2N":
+				v.Add(v, new(big.Int).Lsh(N, 1))
+			default:
+				v.Add(v, new(big.Int).Lsh(N, uint(rapid.IntRange(1, 70).Draw(t, lbl+".shift"))))
+			}
+			vals[wi] = v
+			vlib.Eval(asub)
+			vlib.Class(asub, "alter="+kind)
+			ok, pn, st := qnVerify(p2, vals[0], vals[1], vals[2], vals[3], N)
+			if pn != nil {
+				vlib.Report(t, key("alter/panic/"+vlib.PanicClass(pn)), fmt.Sprintf("%s: statement element %d replaced by the representative %s (%v) of its class: panic %v\n%s", desc, wi, how, v, pn, st))
+				return
+			}
+			vlib.Class(asub, fmt.Sprintf("other-representative verdict=%v (same statement; not asserted)", ok))
+			continue
 		case "swap-gh":
 			g2, gx2, h2, hx2 = h, hx, g, gx
 			ident = g.Cmp(h) == 0
